@@ -282,14 +282,14 @@ ROWS = [0, 1, 34, 35, 36, 69, 70, 71, 105, 106]
 def gen_cases(rng, tier):
     quick = tier == 'quick'
     cases = []
-    for i in range(230 if quick else 2600):
+    for i in range(230 if quick else 2000):
         tool = 'pbgen' if i % 4 == 3 else 'cnfgen'
         c = P.gen_graph_base(rng, small=True) if i % 5 in (1, 3) else P.gen_base(rng, small=(i % 2 == 0))
         c['chain'] = P.gen_chain(rng, maxlen=2) if tool == 'cnfgen' else []
         cases.append(make_case(rng, tool, c, 'valid-graph' if c.get('graph') else 'valid'))
     # every sub-command once per output mode, small
     subs = []
-    for _ in range(40 if quick else 300):
+    for _ in range(40 if quick else 110):
         subs.append(P.gen_base(rng, small=True))
         subs.append(P.gen_graph_base(rng, small=True))
     seen = set()
@@ -316,7 +316,7 @@ def gen_cases(rng, tier):
             cases.append(make_case(rng, tool, dict(base, chain=[]), 'page-splits', opts=(list(rng.choice(LATEX_SPELLINGS)), 'latex')))
         cases.append(make_case(rng, 'cnfgen', dict(sub='false', args=[], chain=[(rng.choice(['xor', 'or']), [n + 1])]), 'page-splits', opts=(['-l'], 'latex')))
     # malformed: the mutations of the C17 stream behind the new options
-    for i in range(70 if quick else 900):
+    for i in range(70 if quick else 700):
         c = P.gen_base(rng, small=True) if i % 3 else P.gen_graph_base(rng, small=True)
         tool = 'pbgen' if i % 5 == 4 else 'cnfgen'
         c['chain'] = P.gen_chain(rng, maxlen=2) if tool == 'cnfgen' else []
